@@ -251,13 +251,15 @@ Fixpoint urlsafe_body (l : list N) : bool :=
   | [c] => urlsafe_char c || (c =? 10)
   | c :: r => urlsafe_char c && urlsafe_body r
   end.
-Definition is_urlsafe (l : list N) : res bool :=
+(* [lenient]: the variant with fix03 (octets that are not UTF-8 are simply not
+   URL-safe); without it to_str raises UnicodeDecodeError *)
+Definition is_urlsafe (lenient : bool) (l : list N) : res bool :=
   if utf8_ok l then
     Ok (match l with
         | [] => false
         | c :: _ => urlsafe_char c && urlsafe_body l
         end)
-  else Err EValue.
+  else if lenient then Ok false else Err EValue.
 
 (* ------------------------------------------------------------------ *)
 (* objects                                                              *)
@@ -701,7 +703,7 @@ Section Pipeline.
         if b then Ok o else jerr BadSignatureError
     end.
 
-  Definition serialize_compact97 (protected : list (str * pv)) (payload : bytes)
+  Definition serialize_compact97 (lenient : bool) (protected : list (str * pv)) (payload : bytes)
              (src : keysrc) (algorithms : option (list str)) : res bytes :=
     match dget protected s_b64 with
     | None => serialize_compact_rg protected payload src (reg15 algorithms)
@@ -718,7 +720,7 @@ Section Pipeline.
         do _ <- check_key_type r k;
         let hseg := json_b64encode protected' in
         do sig <- alg_sign r k (hseg ++ 46 :: payload);
-        do u <- is_urlsafe payload;
+        do u <- is_urlsafe lenient payload;
         if u then Ok (hseg ++ 46 :: payload ++ 46 :: b64e sig)
         else Ok (hseg ++ 46 :: 46 :: b64e sig)
     end.
